@@ -40,7 +40,7 @@ ASSUME = [
     "slides present in a corpus deck before the case starts are opaque to the model (only their layout reference is modelled); the oracle checks them byte-for-byte",
     "shape ids and names inside group shapes are not modelled (no case adds a group to a new slide)",
     "python ints only; negative list indices are not generated",
-    "the property speaks about geometry until overridden: what a setter does to the partner dimension (setting left on a placeholder without a:off creates a:off with y = 0, so top stops being inherited; a rejected value leaves the freshly created zeros behind) is modelled, proved (C13_set_own, C13_set_rejected) and tied by the correspondence, but not judged by the oracle",
+    "the property speaks about geometry until overridden: what an ACCEPTED setter does to the partner dimension (setting left on a placeholder without a:off creates a:off with y = 0, so top stops being inherited) is modelled, proved (C13_set_own) and tied by the correspondence, but not judged by the oracle; a REFUSED value leaves the shape untouched (C13_set_rejected), which the oracle does check (the four dimensions read the same before and after)",
 ]
 
 _META = None
@@ -395,7 +395,13 @@ class Deck:
                 e = toks[4]
                 if e == "S":
                     attr, v = ATTRS[int(toks[5])], int(toks[6])
-                    setattr(sh, attr, v)
+                    before = [self.geom(sh, a_) for a_ in ATTRS] if oracle else None
+                    try:
+                        setattr(sh, attr, v)
+                    except Exception:  # noqa
+                        if oracle:
+                            oracle.after_refused_set(self, sh, attr, v, before, [self.geom(sh, a_) for a_ in ATTRS], op)
+                        raise
                     if oracle:
                         oracle.after_set(self, sh, attr, v, op)
                 elif e == "C":
@@ -623,6 +629,11 @@ class Oracle:
             got = repr(e)
         if got != v:
             self.bad("set:%s" % attr, "after %s = %d the shape reports %r" % (attr, v, got), op)
+
+    def after_refused_set(self, d, sh, attr, v, before, after, op):
+        """a refused assignment must not override anything: the shape reports what it reported before"""
+        if before != after:
+            self.bad("set-refused:%s" % attr, "%s = %d was refused, yet left/top/width/height changed from %r to %r" % (attr, v, before, after), op)
 
     def finish(self, d):
         pass
@@ -1049,7 +1060,7 @@ def translate_quiet():
 
 CLAIM = {
     "tech": "Coq proof over a Gallina model of slide/notes creation from layouts (placeholder cloning, naming, inherited geometry) generic in the literal tables, which a translator re-extracts from the source each run; extracted-model correspondence on every corpus layout and generated layouts + independent oracle",
-    "text": "38 theorems closed under the global context, for ANY tables and ANY deck state: the new slide's placeholders mirror the layout's non-latent ones (type, idx, orientation, size, order), names and ids are fresh (the naming loop's fuel is proved sufficient), geometry is inherited from the first layout placeholder with the same idx (own value after a set), the slide is last and related to its layout, everything else is unchanged, notes slides mirror the notes master; the exact guard under which add_slide / the geometry getters raise KeyError is characterised from the regenerated tables (C13_partial_maps_exact). The model is tied to slide.py / shapetree.py / placeholder.py by running histories on all 177 corpus layouts and ~500 generated layout populations on the real library and on the extracted model (0 diffs), and by an oracle on raw lxml.",
+    "text": "39 theorems closed under the global context, for ANY tables and ANY deck state: the new slide's placeholders mirror the layout's non-latent ones (type, idx, orientation, size, order), names and ids are fresh (the naming loop's fuel is proved sufficient), geometry is inherited from the first layout placeholder with the same idx (own value after an accepted set; a refused set raises ValueError and leaves the shape untouched, so it keeps inheriting), the slide is last and related to its layout, everything else is unchanged, notes slides mirror the notes master; the exact guard under which add_slide / the geometry getters raise KeyError is characterised from the regenerated tables (C13_partial_maps_exact). The model is tied to slide.py / shapetree.py / placeholder.py by running histories on all 177 corpus layouts and ~500 generated layout populations on the real library and on the extracted model (0 diffs), and by an oracle on raw lxml.",
     "note": "tables (latent types, base names, layout->master type map, txBody types, templates) come from tx/tx_c13.py (trusted to transcribe, fail-closed); non-sp placeholders on layouts, shapes inside groups and damaged packages (missing_rels_item.pptx) are outside the model; duplicate idx within one layout is the property's side condition (first match wins, proved and exercised).",
     "ref": "6/C13",
 }
